@@ -40,7 +40,41 @@ def strategy(draw, tier="quick"):
     regime = draw(st.sampled_from(REGIMES))
     shape = "nonrecursive" if regime in ("QQ", "FREE") else None
     g = draw(gen.grammar(regimes=[regime], shape=shape, **gen.size(tier)))
-    return {"g": g, "perm": draw(st.sampled_from([0, 1, 3, "rev"]))}
+    # calls made on the same grammar object *before* the totals are asked for: they fill the object's
+    # caches (trimmed copy, normal forms) or run the same computation with loose settings
+    warm = draw(st.lists(st.sampled_from(WARM), max_size=3)) if draw(st.booleans()) else []
+    return {"g": g, "perm": draw(st.sampled_from([0, 1, 3, "rev"])), "warm": warm}
+
+
+WARM = ["trim", "trim_bottomup", "cotrim", "cnf", "prefix_grammar", "nullaryremove", "unaryremove", "treesum_loose", "treesum_maxiter", "agenda_loose", "naive_loose", "call"]
+
+
+def warm_up(cfg, name):
+    if name == "trim":
+        return cfg.trim()
+    if name == "trim_bottomup":
+        return cfg.trim(bottomup_only=True)
+    if name == "cotrim":
+        return cfg.cotrim()
+    if name == "cnf":
+        return cfg.cnf
+    if name == "prefix_grammar":
+        return cfg.prefix_grammar
+    if name == "nullaryremove":
+        return cfg.nullaryremove()
+    if name == "unaryremove":
+        return cfg.unaryremove()
+    if name == "treesum_loose":
+        return cfg.treesum(tol=1e-2)
+    if name == "treesum_maxiter":
+        return cfg.treesum(maxiter=3)
+    if name == "agenda_loose":
+        return cfg.agenda(tol=1e-1)
+    if name == "naive_loose":
+        return cfg.naive_bottom_up(timeout=2)
+    if name == "call":
+        return cfg(())
+    raise ValueError(name)
 
 
 def sccs_gt1(g):
@@ -79,6 +113,9 @@ def check(case, ctx):
     Z = want[G.S]
     ctx.nontrivial = (sccs_gt1(g) >= 2 or "repeated_symbol" in cl) and not M.is_zero(Z) and not M.eq(Z, M.one)
 
+    for name in case.get("warm", []):
+        ctx.call("warm:" + name, warm_up, cfg, name)
+        ctx.cls("warm:" + name)
     ag = ctx.call("agenda", cfg.agenda)
     if not isinstance(ag, LibRaised):
         for X in G.N:
